@@ -6,8 +6,10 @@ applications, instances and workers; induction over the schedule in `ForML.Lemma
 Reading of the statement in the model
 * "each caller receives exactly once the outcome computed from its own payload by the model instance its
   application selected" : in every reachable state the answer log holds at most one entry per caller and that
-  entry is `expected cfg c` (`C16_correlation`, `C16_exact_*`); in every state where no step is enabled every
-  arrived caller has exactly one entry (`C16_no_loss_*`).
+  entry is `expected cfg c` (`C16_correlation`, `C16_exact`); in every state where no step is enabled every
+  arrived caller has exactly one entry (`C16_no_loss_*`); every schedule is finite (`C16_termination`: at most
+  13 steps per caller) and can be continued to such a state (`C16_exactly_once`) — so there is no interleaving,
+  however unfair, that keeps a caller waiting for ever or answers it twice.
 * "a request that fails with a platform-level error fails alone" : `C16_isolation`.
 * `Config.locked = true` is `Wrapper._get_descriptor` as it exists (critical section under `Wrapper._lock`,
   /repo 710a92e = fixes/C16-descriptor-lock.diff); `false` is the code before that repair, kept for the
@@ -16,6 +18,7 @@ Reading of the statement in the model
   property's fault class (unsupported encoding, unknown application, missing features) and does stop a pool.
 -/
 import ForML.Lemmas.C16
+import ForML.Lemmas.C16Term
 
 namespace ForML.Serving
 
@@ -155,6 +158,49 @@ theorem C16_fatal_counterexample : ¬ C16_no_loss_full := by
     have := h fatalCfg fatalSched s (by decide) hr hobs.1 1 (by simp [hobs.2.1])
     omega
 
+/-! ### termination and completion -/
+
+/-- **Every schedule is finite**: no interleaving runs for more than 13 steps per caller (arrive, at most six
+descriptor steps, submit / decode failure, take, finish, deliver, respond; a rank that every step strictly
+decreases, `ForML.Lemmas.C16Term`).  Together with `C16_no_loss_partial` ("where nothing is enabled everybody is
+answered") this is what makes "exactly once" hold without any fairness assumption: a schedule cannot avoid
+answering a caller by going on for ever. -/
+theorem C16_termination (cfg : Config) (sched : List Step) (s : State) (h : run cfg init sched = some s) :
+    sched.length ≤ 13 * cfg.callers.length := by
+  have := measure_run sched Inv.init h
+  rw [measure_init] at this; omega
+
+/-- The property's first sentence in one statement, for the code that exists and the property's fault class:
+after **any** schedule, some continuation (every one of them is finite by `C16_termination`) reaches a state
+where nothing is left to do, and there every caller that had arrived has been answered exactly once, with the
+outcome computed from its own payload by the instance its application selected (or its own platform error). -/
+def C16_exactly_once_full : Prop :=
+  ∀ (cfg : Config) (sched : List Step) (s : State), cfg.locked = true → hasFatal cfg = false → 1 ≤ cfg.workers →
+    run cfg init sched = some s →
+    ∃ ext s', run cfg init (sched ++ ext) = some s' ∧ stuck cfg s' = true ∧
+      ∀ c, s.phase c ≠ .fresh → nAnswers s' c = 1 ∧ (c, expected cfg c) ∈ s'.answers
+
+theorem C16_exactly_once : C16_exactly_once_full := by
+  intro cfg sched s hl hf hw h
+  have hI := Inv.init.run sched h
+  obtain ⟨ext, s', hr, hst⟩ := exists_completion (cfg := cfg) _ s hI (Nat.le_refl _)
+  have hrun : run cfg init (sched ++ ext) = some s' := by rw [run_append, h]; exact hr
+  refine ⟨ext, s', hrun, hst, fun c hc => ?_⟩
+  have hc' : s'.phase c ≠ .fresh := by
+    rw [← rank_lt_iff] at hc ⊢
+    have := rank_run_le ext hI hr c
+    omega
+  have h1 := C16_no_loss_partial cfg (sched ++ ext) s' hw hf hrun hst c hc'
+  refine ⟨h1, ?_⟩
+  have hpos : 0 < (s'.answers.filter (fun a => a.1 == c)).length := by simp only [nAnswers] at h1; omega
+  obtain ⟨a, ha⟩ := List.exists_mem_of_length_pos hpos
+  obtain ⟨ham, hac⟩ := List.mem_filter.1 ha
+  have hac' : a.1 = c := by simpa using hac
+  have := C16_exact cfg (sched ++ ext) s' hl hf hrun a.1 a.2 ham
+  rw [hac'] at this
+  rw [← this, ← hac']
+  exact ham
+
 /-! ### isolation -/
 
 /-- **A platform-level failure fails alone.** Let `cfg'` differ from `cfg` at most in caller `c`'s request
@@ -186,6 +232,9 @@ def demoCfg : Config :=
     inventory := [0, 1], select := fun a => a + 10, workers := 2, locked := true }
 
 example : demoCfg.locked = true ∧ hasFatal demoCfg = false ∧ 1 ≤ demoCfg.workers := by decide
+
+/-- the bound of `C16_termination` is not far off: this complete schedule of the six callers has 40 steps (≤ 78) -/
+example : (randomRun demoCfg (instsOf demoCfg) 200 1 init []).2.length = 40 := by decide +kernel
 
 /-- a complete pseudo-random schedule of `demoCfg` is a schedule (`run` accepts it), ends stuck, and all six
 callers are answered as prescribed -/
